@@ -29,7 +29,11 @@ SeqSet(s) == {s[i] : i \in 1..Len(s)}
 \* ---- one context's recorded reads against the contract state S ---------------------------------
 AttrOK(S, e) ==
   LET c == e.c IN
-  /\ \A i \in 1..Len(e.get) : e.get[i].n \in Names /\ e.get[i].id = S.attrs[c][e.get[i].n]
+  /\ \A i \in 1..Len(e.get) :
+       LET g == e.get[i] IN
+       /\ g.n \in Names /\ g.id = S.attrs[c][g.n]           \* getattr: the object / AttributeError (0)
+       /\ g.h = (IF S.attrs[c][g.n] # NoBox THEN 1 ELSE 0)    \* hasattr()
+       /\ g.d = (IF S.attrs[c][g.n] # NoBox THEN 0 ELSE 1)    \* getattr(.., default) gave the default
   /\ Len(e.iter) = Cardinality(BoundNames(S, c))
   /\ {<<x.n, x.id, x.val>> : x \in SeqSet(e.iter)}
        = {<<nm, S.attrs[c][nm], S.cont[S.attrs[c][nm]]>> : nm \in BoundNames(S, c)}
@@ -46,14 +50,15 @@ IdsOK(ids, b) == b \in SeqSet(ids) /\ \A i \in SeqSet(ids) : i \in Boxes /\ Kind
 \* in the accessing context; RuntimeError (code RTE) for each of them where nothing is bound
 \* (== is not judged there: CPython turns the failed lookup of __eq__ into NotImplemented)
 FwdOK(S, b, p) ==
-  LET f == p.fw IN      \* <<len, iter, [0], 7 in, +, hash, str>>
+  LET f == p.fw IN      \* <<len, iter, [0], 7 in, +, hash, str, dir() non-empty>>
   IF b = NoBox THEN /\ f[1] = RTE /\ f[3] = RTE /\ f[4] = RTE /\ f[5] = RTE /\ f[7] = RTE
+                    /\ f[8] = 0                         \* dir(unbound proxy) = []
                     \* iter() and hash(): CPython's type slots swallow the RuntimeError raised while
                     \* looking the method up and answer TypeError (not iterable / unhashable) themselves
                     /\ f[2] \in {RTE, TYE} /\ f[6] \in {RTE, TYE}
   ELSE /\ f[1] = SizeOf(S.cont, b) /\ f[2] = SizeOf(S.cont, b)
        /\ f[3] = GetItemCode(S.cont, b) /\ f[4] \in InCodes(S.cont, b) /\ f[5] = AddCode(S.cont, b)
-       /\ f[6] = HashCode(b) /\ f[7] = 1
+       /\ f[6] = HashCode(b) /\ f[7] = 1 /\ f[8] = 1
        \* ==, str() and hash() through the proxy agree with the bound object's own (and with no
        \* object of another kind)
        /\ IdsOK(p.ag, b)
@@ -82,12 +87,12 @@ CtxClause(S, o, e) ==
         ELSE IF o.op \in ReleaseOps THEN "ReleaseIsLocal"
         ELSE "NoLeakBetweenContexts")
   ELSE IF ~ProxyOK(S, e) THEN
-       (IF \E p \in SeqSet(e.prox) : p.k \in PKinds /\ Bound(S, e.c, p.k) = NoBox
+       (IF \E p \in SeqSet(e.prox) : p.k \in AllKinds /\ Bound(S, e.c, p.k) = NoBox
                                       /\ (p.truthy \/ ~p.unb \/ p.id # 0 \/ p.cur # 0 \/ ~p.isproxy
                                           \/ ~FwdOK(S, NoBox, p))
         THEN "ProxyReportsUnbound"
         \* a bound but falsy object must still be reported as bound (no RuntimeError, its own repr)
-        ELSE IF \E p \in SeqSet(e.prox) : p.k \in PKinds /\ Bound(S, e.c, p.k) # NoBox
+        ELSE IF \E p \in SeqSet(e.prox) : p.k \in AllKinds /\ Bound(S, e.c, p.k) # NoBox
                       /\ ~TruthyC(S.cont, Bound(S, e.c, p.k))
                       /\ (p.cur = 0 \/ p.id = 0 \/ p.unb \/ ~p.repobj)
         THEN "FalsyBoundObjectIsBound"
@@ -99,6 +104,15 @@ FirstBad(S, o, obs, i) ==
   IF i > Len(obs) THEN "ok"
   ELSE IF obs[i].c \notin S.alive THEN "drift:observed-context-not-alive"
   ELSE LET v == CtxClause(S, o, obs[i]) IN IF v # "ok" THEN v ELSE FirstBad(S, o, obs, i + 1)
+
+\* what the driver's own (main) context reads: it never wrote, so whatever the other contexts did
+\* it sees an empty namespace, an empty stack and only unbound proxies
+MainClause(S, main) ==
+  IF Len(main) = 0 THEN "ok"
+  ELSE LET Z == [S EXCEPT !.attrs[1] = NoAttrs, !.stack[1] = <<>>, !.cvar[1] = NoBox]
+           e == main[1]
+       IN IF ~(AttrOK(Z, e) /\ StackOK(Z, e)) THEN "NoLeakBetweenContexts"
+          ELSE IF ~ProxyOK(Z, e) THEN "ProxyReportsUnbound" ELSE "ok"
 
 OpOf(line) == [ctx |-> line.ctx, op |-> line.op, n |-> line.n, b |-> line.b, v |-> line.v,
                k |-> line.k, child |-> line.child]
@@ -116,10 +130,11 @@ JudgeAgainst(T, S, o, line) ==
   IF {e.c : e \in SeqSet(line.obs)} # T.alive \/ Len(line.obs) # Cardinality(T.alive)
   THEN "drift:contexts-observed"
   \* results of LocalManager(...) and of the middleware call are not part of the property
-  ELSE IF o.op \notin {"mkmgr", "mw"} /\ line.r # RetOf(S, o) THEN
+  ELSE IF o.op \notin {"mkmgr", "mw", "mw_enter"} /\ line.r # RetOf(S, o) THEN
        (IF o.op \in ProxyOps THEN "ProxyResolvesInAccessingContext"
         ELSE IF o.op \in ReleaseOps THEN "ReleaseReleases" ELSE "ReturnValue")
-  ELSE FirstBad(T, o, line.obs, 1)
+  ELSE LET v == FirstBad(T, o, line.obs, 1) IN
+       IF v # "ok" THEN v ELSE MainClause(T, line.main)
 
 \* [v |-> "ok" | a clause of the property | "drift:..." (the trace is not a behaviour of the
 \* model's vocabulary: a harness problem, reported as drift, never as a verdict), s |-> next state]
